@@ -1,0 +1,15 @@
+// +build verif
+
+package utils
+
+import "github.com/satori/go.uuid"
+
+// VerifRegister registers a notification channel under a given id (the verification harness
+// replays one log entry on several stand-alone replicas, each with its own waiting channel).
+func (this *Notificator) VerifRegister(id uuid.UUID, bufSize int) <-chan interface{} {
+	c := make(chan interface{}, bufSize)
+	this.mu.Lock()
+	this.chans[id] = c
+	this.mu.Unlock()
+	return c
+}
